@@ -14,11 +14,18 @@ KNAME = {0: "sf.DoEx", 1: "lc.Do", 2: "rm.Get", 3: "sf.Do", 4: "collection.Cache
 EK = {"inv": 0, "fs": 1, "fe": 2, "ret": 3, "del": 5, "fault": 6}
 PANIC = -2      # err code: the user function panics (Model.epanic)
 NOTFOUND = 9    # err code: the cache node's not-found error (Check.enotfound)
+WNOTFOUND = 19  # the same, wrapped with %w by the loader: the node must treat it as not found (rendered as 9 for Coq)
+NIL = -1        # val: the user function returns a nil value (Model.vnil)
 INST = 1000     # key // INST = instance of the primitive / cache (two instances per case)
 
 
 def is_cache(case):
     return any(o[0] >= 4 for sc in case.get("scripts", []) for o in sc)
+
+
+def is_node(case):
+    """the case talks to a (mini)redis over TCP: a goroutine in [IO wait] may look blocked for a moment"""
+    return any(o[0] in (5, 7, 8, 9) for sc in case.get("scripts", []) for o in sc)
 
 
 def interleavings(counts):
@@ -36,7 +43,7 @@ def interleavings(counts):
 class C07(Property):
     id = "C07"
     title = "SingleFlight/LockedCalls: de-duplication without staleness, per-key exclusion"
-    quick_cases = 950
+    quick_cases = 850
     thorough_cases = 8000
     design_ref = "DESIGN.md §6/C07"
     level_text = ("Unbounded Rocq theorems over an interleaving model (any number of threads, any scripts of "
@@ -113,6 +120,11 @@ class C07(Property):
         # cache node: not-found placeholder, query error (not cached), store down (fails fast), reload after del
         cs.append({"scripts": self._mk_scripts([[(5, 1, NOTFOUND)], [(8, 1, 0)], [(5, 1, 0), (7, 1, 0), (8, 1, 0)]]),
                    "sched": [0, 1, 0, 2, 2, 2, 2]})
+        cs.append({"scripts": self._mk_scripts([[(8, INST + 1, WNOTFOUND)], [(5, INST + 1, 0)], [(5, 1, 0)]]), "sched": [0, 1, 0, 2, 2, 1]})
+        # a function that returns (nil, nil), the empty key
+        cs.append({"scripts": self._mk_scripts([[(0, 0, 0, NIL)], [(0, 0, 0)], [(1, 0, 0, NIL)], [(1, 0, 0)]]),
+                   "sched": [0, 1, 2, 3, 0, 2, 3, 3]})
+        cs.append({"scripts": self._mk_scripts([[(4, 0, 0, NIL), (4, 0, 0)], [(4, 0, 0)]]), "sched": [0, 1, 0, 0, 1]})
         cs.append({"scripts": self._mk_scripts([[(5, 1, 3), (5, 1, 0)], [(5, 1, 0), (9, 1, 0, 1), (5, 1, 0), (5, 2, 0), (9, 1, 0, 0), (5, 2, 0)]]),
                    "sched": [0, 1, 0, 0, 0, 1, 1, 1, 1, 1, 1, 1]})
         # ResourceManager as a sequential object: share, failed create retried, Inject, Close
@@ -153,7 +165,7 @@ class C07(Property):
         # ResourceManager: three gate-level steps per call
         for keys in pats[2]:
             for sch in interleavings([3, 3]):
-                for es in ((0, 0), (3, 0), (PANIC, 0)):
+                for es in (((0, 0), rng.choice([(3, 0), (PANIC, 0)])) if quick else ((0, 0), (3, 0), (PANIC, 0))):
                     cases.append({"scripts": self._mk_scripts([[(2, k, e)] for k, e in zip(keys, es)]), "sched": sch})
         rm3 = [s for s in interleavings([3, 3, 3])]
         rng.shuffle(rm3)
@@ -210,9 +222,11 @@ class C07(Property):
                 if rng.random() < 0.2:
                     ops.append((7 if node else 6, key, 0))
                 elif node:
-                    ops.append((rng.choice([5, 5, 8]), key, rng.choice([0, 0, 0, 0, 2, NOTFOUND, NOTFOUND, PANIC])))
+                    ops.append((rng.choice([5, 5, 8]), key, rng.choice([0, 0, 0, 0, 2, NOTFOUND, NOTFOUND, WNOTFOUND, PANIC])))
+                elif rng.random() < 0.1 and not any(len(x) > 3 for y in sc for x in y) and not any(len(x) > 3 for x in ops):
+                    ops.append((4, key, 0, NIL))          # the loader returns (nil, nil): a cacheable value
                 else:
-                    ops.append((4, key, rng.choice([0, 0, 0, 0, 2, 2, PANIC])))
+                    ops.append((4, key - (1 if rng.random() < 0.15 else 0), rng.choice([0, 0, 0, 0, 2, 2, PANIC])))
             sc.append(ops)
         if faulty:
             # one thread switches the store off and on again
@@ -238,7 +252,12 @@ class C07(Property):
             for _ in range(rng.choice([1, 1, 2, 2, 3])):
                 kind = rng.choice([0, 1, 2, 3]) if mode == "mix" else mode
                 err = rng.choice([0, 0, 0, 0, 1, 2, PANIC])
-                ops.append((kind, rng.randint(1, nkeys) + (INST if two and rng.random() < 0.4 else 0), err))
+                key = rng.randint(0 if rng.random() < 0.2 else 1, nkeys)     # key 0 = the empty string
+                op = (kind, key + (INST if two and rng.random() < 0.4 else 0), err)
+                if kind != 2 and err == 0 and rng.random() < 0.08 and not any(len(x) > 3 for y in sc for x in y) \
+                        and not any(len(x) > 3 for x in ops):
+                    op = op + (NIL,)                       # a function that returns (nil, nil)
+                ops.append(op)
             sc.append(ops)
         total = sum(len(x) for x in sc)
         sched = [rng.randrange(nthreads) for _ in range(rng.randint(total, 3 * total))]
@@ -270,6 +289,9 @@ class C07(Property):
                 return {"err": r.get("err") or "short rmobs", "rmobs": r.get("rmobs") or []}
             return {"rmobs": r["rmobs"]}
         nt = len(case["scripts"])
+        if r.get("err") == "skipped":
+            # the executor gave up after spending its hang budget on earlier cases (those are the findings)
+            return {"skipped": True, "steps": [], "log": [], "forced": False}
         if r.get("err"):
             return {"err": r["err"], "steps": [], "log": [], "forced": not case.get("free")}
         if case.get("free"):
@@ -277,6 +299,7 @@ class C07(Property):
             return {"steps": [], "log": log, "forced": False, "monitor": r.get("monitor") or []}
         steps, log = [], []
         lastt = 0
+        node = is_node(case)   # no "seen blocked" judgement where network I/O is involved
         for s in r["steps"]:
             order = []
             for e in s["ev"]:
@@ -296,11 +319,11 @@ class C07(Property):
                     sts.append([{"call": 0, "pre": 4}.get(x.get("l"), 3), x["op"]])
                 else:
                     sts.append([1, x["op"]])
-                    if not s["skip"]:
+                    if not s["skip"] and not node:
                         log.append([lastt, t, 4, x["op"], 0, 0, 0])
             steps.append({"a": s["a"], "skip": s["skip"], "order": order, "st": sts})
         # whoever is still blocked when the run is over (nothing parked any more) waits for ever
-        if steps:
+        if steps and not node:
             for t, st in enumerate(steps[-1]["st"]):
                 if st[0] == 1:
                     log.append([lastt + 1, t, 4, st[1], 0, 0, 0])
@@ -312,8 +335,10 @@ class C07(Property):
             ops = clist(["mkRmOp %s %s %s %s" % tuple(cz(x) for x in o) for o in case["rmseq"]])
             ob = clist(["(%s, %s, %s)" % tuple(cz(x) for x in o) for o in obs.get("rmobs", [])])
             return "RmSeq %s %s" % (ops, ob)
-        scripts = clist([clist(["mkOp %s %s %s %s" % (KIND[o[0]], cz(o[1]), cz(o[2]), cz(o[3])) for o in sc])
-                         for sc in case["scripts"]])
+        if obs.get("skipped"):
+            return "Conc (mkCase [] false false [] [])"
+        scripts = clist([clist(["mkOp %s %s %s %s" % (KIND[o[0]], cz(o[1]), cz(o[2]), cz(NOTFOUND if o[3] == WNOTFOUND else o[3]))
+                                for o in sc]) for sc in case["scripts"]])
         steps = clist(["mkOStep %d%%nat %s %s %s" % (s["a"], cbool(s["skip"]),
                                                  clist(["%d%%nat" % t for t in s["order"]]),
                                                  clist(["(%s, %s)" % (cz(a), cz(b)) for a, b in s["st"]]))
